@@ -203,6 +203,71 @@ func runSTLASCII(src *choice.Source, st *Stats) (fs []Finding) {
 			fs = append(fs, *f)
 		}
 	}
+	if len(fs) > 0 {
+		return
+	}
+	// the same faces once more in another legal layout (drawn last so that recorded
+	// tapes keep their meaning): CRLF line ends, blank lines, long solid names,
+	// several blanks or tabs between tokens, explicit signs and exponents
+	eol := []string{"\n", "\r\n"}[src.Intn(2)]
+	blank := src.Chance(1, 3)
+	sep := []string{" ", "  ", "\t", " \t "}[src.Intn(4)]
+	long := ""
+	if src.Chance(1, 4) {
+		long = " " + strings.Repeat("n", 100+src.Intn(700))
+	}
+	numStyle := src.Intn(4)
+	num := func(x float32) string {
+		switch numStyle {
+		case 1:
+			return strconv.FormatFloat(float64(x), 'E', 8, 32)
+		case 2:
+			s := strconv.FormatFloat(float64(x), 'f', -1, 32)
+			if !strings.HasPrefix(s, "-") && !strings.HasPrefix(s, "+") && x == x {
+				return "+" + s
+			}
+			return s
+		case 3:
+			return strconv.FormatFloat(float64(x), 'e', -1, 32)
+		}
+		return strconv.FormatFloat(float64(x), 'g', -1, 32)
+	}
+	var sb strings.Builder
+	line := func(toks ...string) {
+		sb.WriteString(indent + strings.Join(toks, sep) + eol)
+		if blank {
+			sb.WriteString(eol)
+		}
+	}
+	// (the file must begin with the keyword itself: no indent on the solid lines)
+	sb.WriteString("solid" + long + eol)
+	for _, t := range tris {
+		line("facet", "normal", "0", "0", "1")
+		line("outer", "loop")
+		for _, v := range t {
+			line("vertex", num(float32(v.X)), num(float32(v.Y)), num(float32(v.Z)))
+		}
+		line("endloop")
+		line("endfacet")
+	}
+	sb.WriteString("endsolid" + long + eol)
+	sdata := []byte(sb.String())
+	st.Files++
+	st.Bytes += int64(len(sdata))
+	st.shape(fmt.Sprintf("ascii-stl styled crlf=%v blank=%v num=%d", eol != "\n", blank, numStyle))
+	for _, d := range deliveries(src, len(sdata)) {
+		r := simio.NewReader(sdata, d)
+		got, err := model3d.ReadSTL(r)
+		st.account(r)
+		if err != nil {
+			fs = append(fs, Finding{"stl_ascii|styled-read-error", fmt.Sprintf("delivery %+v: %v; file starts %q", d, err, trunc(sdata))})
+			continue
+		}
+		if f := compareTris("stl_ascii|styled", tris, got, round32); f != nil {
+			f.Msg = fmt.Sprintf("delivery %+v: %s; file starts %q", d, f.Msg, trunc(sdata))
+			fs = append(fs, *f)
+		}
+	}
 	return
 }
 
@@ -404,6 +469,55 @@ func runOFF(src *choice.Source, st *Stats) (fs []Finding) {
 				fs = append(fs, Finding{"off_stream|retained-face", fmt.Sprintf("delivery %+v: face %d changed after later faces were read: now %v", d, i, face)})
 				break
 			}
+		}
+	}
+	if len(fs) > 0 {
+		return
+	}
+	// the triangle file once more in another layout the reader accepts: tabs and
+	// several blanks between tokens, blanks around lines, trailing blank lines,
+	// exponent notation and explicit signs
+	sep := []string{" ", "  ", "\t", " \t "}[src.Intn(4)]
+	lead := []string{"", " ", "\t"}[src.Intn(3)]
+	trail := []string{"", " ", "  \t"}[src.Intn(3)]
+	numStyle := src.Intn(3)
+	num := func(x float64) string {
+		switch numStyle {
+		case 1:
+			return strconv.FormatFloat(x, 'E', -1, 64)
+		case 2:
+			s := strconv.FormatFloat(x, 'f', -1, 64)
+			if !strings.HasPrefix(s, "-") && x == x {
+				return "+" + s
+			}
+			return s
+		}
+		return strconv.FormatFloat(x, 'g', -1, 64)
+	}
+	var tb strings.Builder
+	tb.WriteString("OFF\n")
+	tb.WriteString(lead + strings.Join([]string{strconv.Itoa(np), strconv.Itoa(nf), "0"}, sep) + trail + "\n")
+	for _, p := range pool {
+		tb.WriteString(lead + strings.Join([]string{num(p.X), num(p.Y), num(p.Z)}, sep) + trail + "\n")
+	}
+	for _, f := range faces {
+		tb.WriteString(lead + strings.Join([]string{"3", strconv.Itoa(f[0]), strconv.Itoa(f[1]), strconv.Itoa(f[2])}, sep) + trail + "\n")
+	}
+	tb.WriteString(strings.Repeat("\n", src.Intn(3)))
+	tdata := []byte(tb.String())
+	st.Files++
+	st.Bytes += int64(len(tdata))
+	for _, d := range deliveries(src, len(tdata)) {
+		r := simio.NewReader(tdata, d)
+		got, err := model3d.ReadOFF(r)
+		st.account(r)
+		if err != nil {
+			fs = append(fs, Finding{"off_text|styled-read-error", fmt.Sprintf("delivery %+v: %v; file %q", d, err, trunc(tdata))})
+			continue
+		}
+		if f := compareTris("off_text|styled", want, got, func(c model3d.Coord3D) model3d.Coord3D { return c }); f != nil {
+			f.Msg = fmt.Sprintf("delivery %+v: %s", d, f.Msg)
+			fs = append(fs, *f)
 		}
 	}
 	return
